@@ -1119,9 +1119,22 @@ mod store {
                     match got { Ok(g) if g == exp => {}, Ok(g) if alt.get(p[1]) == Some(&g) => {}, _ if !crate::want(rp) => {}, other => report(label, rp, &hist, format!("op {} `{}` returned {:?}; files {:?}", i, op, other, files(dir.path())), &format!("{:?}", exp)) } }
                 "merge" => { had_merge = true;
                     let before = data_size(dir.path());
+                    // what the configured thresholds make eligible, computed from the statistics and file sizes before the pass
+                    let stats_before = h.verif_dump().1;
+                    let sizes_before: BTreeMap<u64, u64> = stats_before.iter().filter_map(|(id, _, _, _)| std::fs::metadata(dir.path().join(format!("{}.bitcask.data", id))).ok().map(|m| (*id, m.len()))).collect();
                     match h.verif_merge() {
                         Err(e) => { println!("# op {} merge failed: {}", i, e); had_fault = true; }
                         Ok(()) => {
+                            if crate::want("C13") && !had_fault && !hist.contains("precreate") {
+                                for (id, live, dead, _db) in stats_before.iter() {
+                                    let total = live + dead; let frac = if total == 0 { f64::NAN } else { *dead as f64 / total as f64 };
+                                    let size = match sizes_before.get(id) { Some(s0) => *s0, None => continue };
+                                    let eligible = match mode { "all" | "allsmall" => true, "none" => false, "frag50" => frac > 0.5, "gap" => frac > 0.4 || size < max, _ => frac > 0.0 };
+                                    let still = dir.path().join(format!("{}.bitcask.data", id)).exists();
+                                    if eligible && still { report(label, "C13", &hist, format!("op {} merge: file {} ({} live, {} dead entries, {} bytes) is eligible under the configured thresholds but was not compacted; files {:?}", i, id, live, dead, size, files(dir.path())), "every eligible file is merged and removed"); }
+                                    if !eligible && !still { report(label, "C13", &hist, format!("op {} merge: file {} ({} live, {} dead entries, {} bytes) is NOT eligible under the configured thresholds but was merged", i, id, live, dead, size), "only eligible files are merged"); }
+                                }
+                            }
                             // C13: a merge pass never grows the store; with every file eligible it leaves exactly the live pairs
                             let after = data_size(dir.path());
                             if crate::want("C13") && after > before { report(label, "C13", &hist, format!("op {} merge: data files grew from {} to {} bytes; files {:?}", i, before, after, files(dir.path())), "not larger than before"); }
